@@ -1,0 +1,138 @@
+//go:build verif
+
+package auth
+
+// Contracts for property C11 (writes are all-or-nothing; success is only reported when durable), auth package.
+// Comment-only; read by /verif/engine.
+//
+// Shape: path contracts (`modifies *`: the effect on the heap is not described, only which storage results reach the
+// caller). "Success is only reported when durable" = for every storage call of the function that is not documented as
+// best-effort: a non-nil error of the call forces a non-nil error result (`propagates`), and a nil result implies that
+// the write was actually executed (`called(...)`). The classification of errors (CAS mismatch, not found) is the
+// vocabulary of /verif/trusted/c11_storage.spec.
+// The `best-effort` lines are documentation (parsed, no obligation): they list the storage calls whose failure is
+// deliberately not reported, with the source line that says so.
+
+// Clauses that FAIL on the current code (candidate findings; demonstrations in
+// /verif/findings/C11_casUpdatePrincipal_swallowed_save_error_test.go):
+//   casUpdatePrincipal/propagates/Save#1      a non-CAS Save error is returned as nil (auth.go:713 returns the shadowed, nil err)
+//   casUpdatePrincipal/post/retries-exhausted nil after PrincipalUpdateMaxCasRetries lost CAS races (auth.go:696/735: outer err never assigned)
+//   DeleteSessionForCookie/post/logout-durable the expired cookie (=> HTTP 200) is returned although the session document was not deleted
+//   Save/post/nothing-written-on-error        error after the principal document was written (e-mail lookup Set failed, auth.go:420)
+//   DeleteUser/post/nothing-deleted-on-error  error after the e-mail lookup document was deleted (auth.go:740 before 744)
+
+//@ props C11
+
+// ---- Save ----
+// Validation failure, the CAS write of the principal document and the write of the e-mail lookup document all surface;
+// nil is returned only after the principal document has been written.
+//@ func Authenticator.Save
+//@   modifies *
+//@   only-contracts none
+//@   propagates validate#1 WriteCas#1 Set#1
+//@   ensures[written] isNilErr(result) ==> called(WriteCas, 1) && isNilErr(callres(WriteCas, 1, 1))
+//@   ensures[email-written] isNilErr(result) && called(Set, 1) ==> isNilErr(callres(Set, 1, 0))
+// All-or-nothing (property: a write that fails because a storage operation failed leaves every principal as it was):
+// an error is returned only if the principal document has not been written.
+//@   ensures[nothing-written-on-error] !isNilErr(result) ==> !(called(WriteCas, 1) && isNilErr(callres(WriteCas, 1, 1)))
+
+// Same for the resync variant (it may return nil without writing only when the principal already carries the resync id).
+//@ func Authenticator.UpdateSequenceNumberForResync
+//@   modifies *
+//@   only-contracts New
+//@   propagates WriteCas#1
+//@   ensures[written-or-same-resync] isNilErr(result) ==> called(WriteCas, 1) || callres(ResyncID, 1, 0) == resyncID
+
+// ---- casUpdatePrincipal ----
+// The callback's error surfaces unless it is the documented cancel value; a failed Save that is not retried surfaces;
+// a failed reload after a CAS mismatch surfaces; running out of retries is an error (nothing was written).
+//@ func Authenticator.casUpdatePrincipal
+//@   modifies *
+//@   only-contracts IsCasMismatch, Errorf
+//@   propagates Save#1 GetUser#1 GetRole#1
+//@   ensures[callback-error] called(dynamic, 1) && !isNilErr(callres(dynamic, 1, 1)) && callres(dynamic, 1, 1) != box(base.ErrUpdateCancel) ==> !isNilErr(result)
+//@   ensures[save-attempted] isNilErr(result) && i <= PrincipalUpdateMaxCasRetries ==> called(dynamic, 1) && (callres(dynamic, 1, 1) == box(base.ErrUpdateCancel) || called(Save, 1))
+//@   ensures[retries-exhausted] i > PrincipalUpdateMaxCasRetries ==> !isNilErr(result)
+
+// ---- DeleteUser / DeleteRole ----
+// DeleteUser: the delete of the user document surfaces.
+// best-effort: Delete#1 (e-mail lookup document) - auth.go:740-742 logs "Error deleting document ID for user email" and goes on;
+// a stale e-mail document (lookup not deleted, user deleted) is harmless for the property: GetUserByEmail resolves it through
+// GetUser, which finds no user. The reverse order of failures (lookup deleted, user not deleted) is [nothing-deleted-on-error].
+//@ func Authenticator.DeleteUser
+//@   modifies *
+//@   only-contracts none
+//@   best-effort Delete#1
+//@   propagates Delete#2
+//@   ensures[deleted] isNilErr(result) ==> called(Delete, 2) && isNilErr(callres(Delete, 2, 0))
+// All-or-nothing: a failed DeleteUser has not removed the user's e-mail lookup document.
+//@   ensures[nothing-deleted-on-error] !isNilErr(result) ==> !(called(Delete, 1) && isNilErr(callres(Delete, 1, 0)))
+
+//@ func Authenticator.DeleteRole
+//@   modifies *
+//@   only-contracts none
+//@   propagates Delete#1 casUpdatePrincipal#1
+//@   ensures[purged]  isNilErr(result) && purge ==> called(Delete, 1) && isNilErr(callres(Delete, 1, 0))
+//@   ensures[updated] isNilErr(result) && !purge ==> called(casUpdatePrincipal, 1) && isNilErr(callres(casUpdatePrincipal, 1, 0))
+
+// ---- invalidation of computed channels / roles ----
+// The sub-document insert may fail with "already exists / path exists" (already invalidated), "path not found" (the principal
+// has no entry for the collection: nothing to invalidate) or "document not found" (no such principal): these four are
+// deliberately success (auth.go:488, 538). Every other storage error surfaces. Same for the Update fall-back, whose
+// callback cancels (ErrUpdateCancel) when there is nothing to do.
+//@ func Authenticator.InvalidateChannels
+//@   modifies *
+//@   only-contracts IsDocNotFoundError
+//@   ensures[subdoc-error] called(SubdocInsert, 1) && !isNilErr(callres(SubdocInsert, 1, 0)) && callres(SubdocInsert, 1, 0) != box(base.ErrAlreadyExists) && callres(SubdocInsert, 1, 0) != box(base.ErrPathExists) && callres(SubdocInsert, 1, 0) != box(base.ErrPathNotFound) && !isDocNotFoundErr(callres(SubdocInsert, 1, 0)) ==> !isNilErr(result)
+//@   ensures[update-error] called(Update, 1) && !isNilErr(callres(Update, 1, 1)) && callres(Update, 1, 1) != box(base.ErrUpdateCancel) ==> !isNilErr(result)
+//@   ensures[attempted]    called(SubdocInsert, 1) || called(Update, 1)
+
+//@ func Authenticator.InvalidateRoles
+//@   modifies *
+//@   only-contracts IsDocNotFoundError
+//@   ensures[subdoc-error] called(SubdocInsert, 1) && !isNilErr(callres(SubdocInsert, 1, 0)) && callres(SubdocInsert, 1, 0) != box(base.ErrAlreadyExists) && callres(SubdocInsert, 1, 0) != box(base.ErrPathExists) && callres(SubdocInsert, 1, 0) != box(base.ErrPathNotFound) && !isDocNotFoundErr(callres(SubdocInsert, 1, 0)) ==> !isNilErr(result)
+//@   ensures[update-error] called(Update, 1) && !isNilErr(callres(Update, 1, 1)) && callres(Update, 1, 1) != box(base.ErrUpdateCancel) ==> !isNilErr(result)
+//@   ensures[attempted]    called(SubdocInsert, 1) || called(Update, 1)
+
+//@ func Authenticator.InvalidateRolesAndChannels
+//@   modifies *
+//@   only-contracts none
+//@   ensures[update-error] called(Update, 1) && !isNilErr(callres(Update, 1, 1)) && callres(Update, 1, 1) != box(base.ErrUpdateCancel) ==> !isNilErr(result)
+//@   ensures[attempted]    called(Update, 1)
+
+// The update callbacks: a marshalling failure aborts the update with an error (the storage layer then writes nothing);
+// a document is produced only from a successfully unmarshalled principal.
+//@ func Authenticator.InvalidateChannels$1
+//@   modifies *
+//@   only-contracts none
+//@   propagates JSONUnmarshal#1 JSONMarshal#1
+//@   ensures[missing-cancels] len(current) == 0 && current == nil ==> result3 == box(base.ErrUpdateCancel)
+
+// (InvalidateRoles$1 and InvalidateRolesAndChannels$1 turn an unmarshalling failure of the stored user into ErrUpdateCancel, which
+// their callers report as success: a corrupt user document is "nothing to invalidate". Not a storage failure; not claimed either way.)
+//@ func Authenticator.InvalidateRoles$1
+//@   modifies *
+//@   only-contracts none
+//@   propagates JSONUnmarshal#1 JSONMarshal#1
+
+//@ func Authenticator.InvalidateRolesAndChannels$1
+//@   modifies *
+//@   only-contracts none
+//@   propagates JSONUnmarshal#1 JSONMarshal#1
+
+// ---- callers of casUpdatePrincipal ----
+//@ func Authenticator.UpdateUserEmail
+//@   modifies *
+//@   only-contracts none
+//@   propagates casUpdatePrincipal#1
+// (Authenticator.rehashPassword is a trusted contract of C12 in zz_verif_c12.go: it has the same single call.)
+
+// ---- sessions ----
+// CreateSession, DeleteSession, deleteOneTimeSession: contracts of C12 in zz_verif_c12.go ([stored], [deleted], [consumed]
+// are the durability statements over the ghost key set `docs`).
+// DeleteSessionForCookie (DELETE /db/_session): it has no error result, the REST handler answers 200 with the expired cookie
+// it returns. [logout-durable]: such a cookie is returned only if the session document is gone (deleted now, or not found).
+//@ func Authenticator.DeleteSessionForCookie
+//@   modifies *
+//@   only-contracts none
+//@   ensures[logout-durable] result != nil ==> called(DeleteSession, 1) && (isNilErr(callres(DeleteSession, 1, 0)) || isDocNotFoundErr(callres(DeleteSession, 1, 0)))
